@@ -11,7 +11,13 @@
    failure, `appendBounce` with the bytes the real addbounce() appended, the injection(s) with the envelope and text
    the real injectbounce() handed to qmail-queue, the unlink of bounce/<id> when the real code removed it); the I
    lines of one C case (ids 4711, 4712, …) run through ONE monitor, so the chain message -> bounce -> double bounce ->
-   discard is one accepted event sequence. -/
+   discard is one accepted event sequence.
+   Oracle inputs are computed on the SPEC side from the raw control-file bytes of the case (`specVdoms`, `specLocals`,
+   `specDoubleBounceTo` of Nq.BounceSpec), not with the model's `getcontrols`/`readfile`; the model's values are used for the
+   DISAGREE channel only (and a difference between the two parses is itself a DISAGREE).
+   Open finding C14-strip-exception: the naming oracle is strict (`namedRecipient` with the exception rule); a failure that is
+   exactly that finding (the recipient has an exception entry of its own and is named as the function without the
+   whole-recipient lookup names it) carries `known=C14-strip-exception`; the remaining checks of such a case are still made. -/
 import Drv.Util
 import Nq.Bounce
 import Nq.Spec.BounceSpec
@@ -66,9 +72,35 @@ def isSuffix (a b : Bytes) : Bool := a.reverse.isPrefixOf b.reverse
 
 def dropTrailingLF (t : Bytes) : Bytes := (t.reverse.dropWhile (· == LF)).reverse
 
-/-- oracle for one recipient paragraph as written by the implementation -/
-def paragraphOK (es : Tables) (recip report text : Bytes) : Option String :=
-  let hdr := recipLine (namedRecipient es.locals es.vdoms recip)
+def KNOWN : String := " known=C14-strip-exception"
+
+/-- what the function WITHOUT the whole-recipient lookup names (rules 1, 3, 4 only; spec vocabulary, cf. C14_strip_unrepaired) -/
+def unrepairedName (ls : List Bytes) (es : List (Bytes × Bytes)) (recip : Bytes) : Bytes :=
+  match domainPart recip with
+  | none => recip
+  | some d => if isLocal ls d then recip else prefixUndone es recip d
+
+inductive Named | ok | known | bad
+  deriving DecidableEq
+
+/-- does `p` begin with the line naming `recip` as documented?  `known` = exactly the open finding -/
+def namedCheck (ls : List Bytes) (es : List (Bytes × Bytes)) (recip p : Bytes) : Named :=
+  if (recipLine (namedRecipient ls es recip)).isPrefixOf p then .ok
+  else if hasException es recip && (recipLine (unrepairedName ls es recip)).isPrefixOf p then .known
+  else .bad
+
+/-- the name to use for the remaining checks of a paragraph: the documented one, or (known finding) the one written -/
+def nameFor (ls : List Bytes) (es : List (Bytes × Bytes)) (recip p : Bytes) : Bytes :=
+  if namedCheck ls es recip p == .known then unrepairedName ls es recip else namedRecipient ls es recip
+
+/-- naming oracle over the paragraphs of a bounce file / notice: `none` = all named as documented, else (why-suffix, tag) -/
+def namingOK (ls : List Bytes) (es : List (Bytes × Bytes)) (fails : List (Bytes × Bytes)) (ps : List Bytes) : Option String :=
+  let rs := (List.zip fails ps).map (fun (fr, p) => namedCheck ls es fr.1 p)
+  if rs.any (· == .bad) then some "" else if rs.any (· == .known) then some KNOWN else none
+
+/-- oracle for one recipient paragraph as written by the implementation; `named` = the address it must name -/
+def paragraphOK (named report text : Bytes) : Option String :=
+  let hdr := recipLine named
   let rep' := if !report.isEmpty && report.getLast? != some LF then report ++ [LF] else report
   let body := text.drop hdr.length
   if (paragraphs text).length != 1 then some "not-exactly-one-paragraph"
@@ -79,33 +111,37 @@ def paragraphOK (es : Tables) (recip report text : Bytes) : Option String :=
   else none
 
 /-- oracle for the envelope of a queued message / for not queueing -/
-def envelopeOK (cfg : Cfg) (sender : Bytes) (q : Bool) (f : Bytes) (t : List Bytes) : Option String :=
+def envelopeOK (dbto : Bytes) (sender : Bytes) (q : Bool) (f : Bytes) (t : List Bytes) : Option String :=
   let base := specBase sender
   if base == DBSENDER then (if q then some "double-bounce-failure-was-not-discarded" else none)
   else if !q then none
   else if base.isEmpty then
-    (if f == DBSENDER && t == [cfg.doublebounceto] then none else some "double-bounce-envelope-wrong")
+    (if f == DBSENDER && t == [dbto] then none else some "double-bounce-envelope-wrong")
   else (if f.isEmpty && t == [base] then none else some "bounce-envelope-wrong")
 
-/-- oracle for the text of a queued notice -/
-def noticeOK (cfg : Cfg) (sender mess : Bytes) (fails : List (Bytes × Bytes)) (body : Bytes) : Option String :=
+/-- oracle for the text of a queued notice.  `ls`/`es`/`dbto` = spec-side tables and double-bounce address.  The stated
+predicates are: the original message is a suffix; one paragraph per failed recipient, in order, each naming its recipient;
+two header paragraphs before them.  The model's `trailer` is used only to LOCATE the end of the recipient paragraphs (the
+marker and Return-Path line sit between them and the message). -/
+def noticeOK (ls : List Bytes) (es : List (Bytes × Bytes)) (dbto : Bytes) (sender mess : Bytes) (fails : List (Bytes × Bytes)) (body : Bytes) : Option String :=
   let base := specBase sender
   let single := !base.isEmpty
   let tail := trailer single base mess
-  if !isSuffix tail body then some "original-message-not-appended" else
+  if !isSuffix mess body then some "original-message-not-appended"
+  else if !isSuffix tail body then some "marker-and-return-path-missing-before-the-original-message" else
   let front := body.take (body.length - tail.length)
   let ps := paragraphs front
   let n := fails.length
   let rcptParas := ps.drop (ps.length - n)
-  let toAddr := if single then base else cfg.doublebounceto
+  let toAddr := if single then base else dbto
   if ps.length < n then some "fewer-paragraphs-than-failed-recipients"
   -- a sender whose domain part carries LFs can put a blank line into its own To: field (quote2 copies the
   -- domain part verbatim); the count of the header paragraphs is then not 2, the recipient paragraphs are
   -- still checked from the end
   else if !hasLFLF (Quote.quote2 toAddr ++ [LF]) && ps.length != n + 2 then some "paragraph-count-differs-from-failed-recipients"
-  else if !(List.zip fails rcptParas).all (fun (fr, p) => (recipLine (namedRecipient cfg.locals cfg.vdoms fr.1)).isPrefixOf p)
-    then some "paragraph-does-not-name-its-recipient"
-  else none
+  else match namingOK ls es fails rcptParas with
+    | some tag => some ("paragraph-does-not-name-its-recipient" ++ tag)
+    | none => none
 
 def showRes (r : Res) : String :=
   match r.queued with
@@ -135,23 +171,33 @@ def agreeRes (r : Res) (ret q : Bool) (f : Bytes) (t : List Bytes) (body : Optio
 def handleP (o : Out) (blobh : String) (blob stripped text : Bytes) : Out := Id.run do
   let fs := splitNul blob
   let es : Tables := { locals := readfile (fld fs 4), vdoms := cmEntries (readfile (fld fs 0)) }
+  -- spec side, from the bytes
+  let sl := specControlLines (fld fs 4)
+  let sv := specVdoms (some (fld fs 0))
   let recip := fld fs 1
   let report := fld fs 2
   let mut o := o
   o := { o with st := o.st.bump "kindP" }
+  if sl != es.locals || sv != es.vdoms then
+    o := o.dis s!"in={blobh} kind=P what=control-file-parse model-and-spec-differ"
   match domainPart recip with
   | some d =>
-    if isLocal es.locals d then o := { o with st := o.st.bump "P_local_domain" }
-    else if (userSplit es.vdoms recip).isSome then o := { o with st := o.st.bump "P_virtual_user" }
+    if isLocal sl d then o := { o with st := o.st.bump "P_local_domain" }
+    else if hasException sv recip then o := { o with st := o.st.bump "P_exception_entry" }
+    else if (userSplit sv recip).isSome then o := { o with st := o.st.bump "P_virtual_user" }
   | none => pure ()
   let ms := stripvdom es recip
   let mt := addbounceText es recip report
   if ms != stripped || mt != text then
     o := o.dis s!"in={blobh} kind=P impl={hex stripped} {hex text} model={hex ms} {hex mt}"
   if stripped != recip then o := { o with st := o.st.bump "P_prefix_removed" }
-  if stripped != namedRecipient es.locals es.vdoms recip then
-    o := o.ora s!"in={blobh} kind=P why=virtual-domain-prefix-not-removed-as-specified stripped={hex stripped} spec={hex (namedRecipient es.locals es.vdoms recip)}"
-  match paragraphOK es recip report text with
+  let spec := namedRecipient sl sv recip
+  let known := hasException sv recip && stripped == unrepairedName sl sv recip && stripped != spec
+  if stripped != spec then
+    o := o.ora s!"in={blobh} kind=P why=virtual-domain-prefix-not-removed-as-specified stripped={hex stripped} spec={hex spec}{if known then KNOWN else ""}"
+    if known then o := { o with st := o.st.bump "known_strip_exception" }
+  -- the remaining checks of a known-finding case are made against the name that was written
+  match paragraphOK (if known then stripped else spec) report text with
   | some why => o := o.ora s!"in={blobh} kind=P why={why} text={hex text}"
   | none => pure ()
   return o
@@ -162,8 +208,12 @@ def handleD (o : Out) (blobh : String) (blob appended : Bytes) : Out := Id.run d
   let recip := fld fs 1
   let raw := fld fs 2
   let es : Tables := { locals := readfile (fld fs 5), vdoms := cmEntries (readfile (fld fs 4)) }
+  let sl := specControlLines (fld fs 5)
+  let sv := specVdoms (some (fld fs 4))
   let mut o := o
   o := { o with st := o.st.bump "kindD" }
+  if sl != es.locals || sv != es.vdoms then
+    o := o.dis s!"in={blobh} kind=D what=control-file-parse model-and-spec-differ"
   let rep := delReport dying (1 :: raw)
   let expect := match rep with | some r => addbounceText es recip r | none => ABSENT
   if expect != appended then
@@ -173,14 +223,17 @@ def handleD (o : Out) (blobh : String) (blob appended : Bytes) : Out := Id.run d
   let want := st == some 68 || (st == some 90 && dying)
   o := { o with st := o.st.bump (if want then "D_bounced" else "D_not_bounced") }
   if want then
+    let nc := namedCheck sl sv recip appended
     if appended == ABSENT then o := o.ora s!"in={blobh} kind=D why=permanent-failure-not-recorded"
     else if (paragraphs appended).length != 1 then o := o.ora s!"in={blobh} kind=D why=not-exactly-one-paragraph text={hex appended}"
-    else if !(recipLine (namedRecipient es.locals es.vdoms recip)).isPrefixOf appended then
-      o := o.ora s!"in={blobh} kind=D why=does-not-start-with-recipient-line text={hex appended}"
-    else if raw.length + 1 < Gen.REPORTMAX && st == some 68 then
-      match paragraphOK es recip (raw.drop 1) appended with
-      | some why => o := o.ora s!"in={blobh} kind=D why={why} text={hex appended}"
-      | none => pure ()
+    else
+      if nc != .ok then
+        o := o.ora s!"in={blobh} kind=D why=does-not-start-with-recipient-line text={hex appended}{if nc == .known then KNOWN else ""}"
+        if nc == .known then o := { o with st := o.st.bump "known_strip_exception" }
+      if nc != .bad && raw.length + 1 < Gen.REPORTMAX && st == some 68 then
+        match paragraphOK (nameFor sl sv recip appended) (raw.drop 1) appended with
+        | some why => o := o.ora s!"in={blobh} kind=D why={why} text={hex appended}"
+        | none => pure ()
   else if appended != ABSENT then o := o.ora s!"in={blobh} kind=D why=bounce-recorded-without-permanent-failure text={hex appended}"
   return o
 
@@ -188,13 +241,20 @@ def handleI (o : Out) (id : Nat) (blobh : String) (blob : Bytes) (bfile : Option
     (ret q : Bool) (f : Bytes) (t : List Bytes) (body : Bytes) (left : Bool) (log : Bytes)
     (ret2 q2 : Bool) (f2 : Bytes) (t2 : List Bytes) (body2 : Option Bytes) (left2 : Bool) : Out := Id.run do
   let fs := splitNul blob
-  let cfg := getcontrols (controlsOf fs)
+  let ctl := controlsOf fs
+  let cfg := getcontrols ctl
+  -- spec side, from the control-file bytes
+  let sl := specLocals ctl.locals ctl.me
+  let sv := specVdoms ctl.virtualdomains
+  let sdb := specDoubleBounceTo ctl.doublebounceto ctl.doublebouncehost ctl.me
   let fault := faultOf (fld fs 8)
   let sender := fld fs 9
   let mess := fld fs 10
   let fails := pairsFrom (fs.drop 11)
   let mut o := o
   o := { o with st := (o.st.bump "kindI").bump ("fault_" ++ String.ofList [Char.ofNat ((fld fs 8).headD 45).toNat]) }
+  if sl != cfg.locals || sv != cfg.vdoms || sdb != cfg.doublebounceto then
+    o := o.dis s!"in={blobh} kind=I what=controls model-and-spec-differ spec-dbto={hex sdb} model-dbto={hex cfg.doublebounceto}"
   -- model
   let mb := if fails.isEmpty then none else some (bounceFile cfg.tables fails)
   if mb != bfile then
@@ -216,22 +276,25 @@ def handleI (o : Out) (id : Nat) (blobh : String) (blob : Bytes) (bfile : Option
     let ps := paragraphs b
     if ps.length != fails.length then
       o := o.ora s!"in={blobh} kind=I why=bounce-file-paragraphs-differ-from-failed-recipients n={ps.length} fails={fails.length} file={hex b}"
-    else if !(List.zip fails ps).all (fun (fr, p) => (recipLine (namedRecipient cfg.locals cfg.vdoms fr.1)).isPrefixOf p) then
-      o := o.ora s!"in={blobh} kind=I why=bounce-file-paragraph-does-not-name-its-recipient file={hex b}"
+    else match namingOK sl sv fails ps with
+      | some tag =>
+        o := o.ora s!"in={blobh} kind=I why=bounce-file-paragraph-does-not-name-its-recipient file={hex b}{tag}"
+        if tag == KNOWN then o := { o with st := o.st.bump "known_strip_exception" }
+      | none => pure ()
   | none => if !fails.isEmpty then o := o.ora s!"in={blobh} kind=I why=failures-not-recorded"
-  match envelopeOK cfg sender q f t with
-  | some why => o := o.ora s!"in={blobh} kind=I why={why} F={hex f} T={",".intercalate (t.map hex)}"
+  match envelopeOK sdb sender q f t with
+  | some why => o := o.ora s!"in={blobh} kind=I why={why} F={hex f} T={",".intercalate (t.map hex)} want-dbto={hex sdb}"
   | none => pure ()
-  match envelopeOK cfg sender q2 f2 t2 with
+  match envelopeOK sdb sender q2 f2 t2 with
   | some why => o := o.ora s!"in={blobh} kind=I why={why}-on-retry F={hex f2} T={",".intercalate (t2.map hex)}"
   | none => pure ()
   if q then
-    match noticeOK cfg sender mess fails body with
+    match noticeOK sl sv sdb sender mess fails body with
     | some why => o := o.ora s!"in={blobh} kind=I why={why} body={hex body}"
     | none => pure ()
   if q2 then
     match body2 with
-    | some b2 => match noticeOK cfg sender mess fails b2 with
+    | some b2 => match noticeOK sl sv sdb sender mess fails b2 with
       | some why => o := o.ora s!"in={blobh} kind=I why={why}-on-retry body={hex b2}"
       | none => pure ()
     | none => pure ()
@@ -278,8 +341,8 @@ def feedAll (dcfg : Daemon.Cfg) : (Daemon.St × Ghost) → List (String × Daemo
     | some sg' => feedAll dcfg sg' r
     | none => .error nm
 
-def dcfgOf (cfg : Cfg) : Daemon.Cfg :=
-  { conc := fun _ => 1, lifetime := 604800, route := fun a => (.loc, a), doublebounceto := cfg.doublebounceto }
+def dcfgOf (dbto : Bytes) : Daemon.Cfg :=
+  { conc := fun _ => 1, lifetime := 604800, route := fun a => (.loc, a), doublebounceto := dbto }
 
 def lab (nm : String) (es : List Daemon.Ev) : List (String × Daemon.Ev) := es.map (fun e => (nm, e))
 
@@ -289,11 +352,12 @@ def callEvents (id : Nat) (q : Bool) (f : Bytes) (t : List Bytes) (body log : By
    else if log == troubleLog then [("bounceInject-failed", Daemon.Ev.bounceInject id false [] [])] else [])
   ++ (if before && !after then [("unlinkBounce", Daemon.Ev.unlinkBounce id)] else [])
 
-def daemonI (o : Out) (ch : Chain) (id : Nat) (blobh : String) (cfg : Cfg) (sender : Bytes) (fails : List (Bytes × Bytes))
+def daemonI (o : Out) (ch : Chain) (id : Nat) (blobh : String) (sl : List Bytes) (sv : List (Bytes × Bytes)) (sdb : Bytes)
+    (sender : Bytes) (fails : List (Bytes × Bytes))
     (bfile : Option Bytes) (ret q : Bool) (f : Bytes) (t : List Bytes) (body : Bytes) (left : Bool) (log : Bytes)
     (ret2 q2 : Bool) (f2 : Bytes) (t2 : List Bytes) (body2 : Bytes) (left2 : Bool) (log2 : Bytes) (sizes : List Nat) : Out × Chain := Id.run do
   let mut o := o
-  let dcfg := dcfgOf cfg
+  let dcfg := dcfgOf sdb
   let base := specBase sender
   let gap := base == DBSENDER && sender != DBSENDER
   let had := bfile.isSome
@@ -330,7 +394,8 @@ def daemonI (o : Out) (ch : Chain) (id : Nat) (blobh : String) (cfg : Cfg) (send
   match start with
   | none => return (o, { sg := none })
   | some sg0 =>
-    let named := fails.map (fun fr => namedRecipient cfg.locals cfg.vdoms fr.1)
+    -- record addresses: the documented name (in a known-finding case the name that was written; the naming itself is judged in handleI)
+    let named := (List.zip fails parts).map (fun (fr, part) => nameFor sl sv fr.1 part)
     let addrs := okAddr :: named
     let setup := lab "setup-arrive" (evArrive id sender addrs)
       ++ lab "setup-deliver" [.cmd .loc 0 id 0 okAddr, .rbytes .loc [0, 75, 0], .markD id .loc 0]
@@ -382,7 +447,9 @@ def daemonC (o : Out) (ch : Chain) (blobh : String) (sender : Bytes) (env : List
 
 def handleC (o : Out) (blobh : String) (blob : Bytes) (n : Nat) (s0 : Bytes) (env : List (Bytes × Bytes)) : Out := Id.run do
   let fs := splitNul blob
-  let cfg := getcontrols (controlsOf fs)
+  let ctl := controlsOf fs
+  let cfg := getcontrols ctl
+  let sdb := specDoubleBounceTo ctl.doublebounceto ctl.doublebouncehost ctl.me
   let sender := fld fs 9
   let mess := fld fs 10
   let fails := pairsFrom (fs.drop 11)
@@ -411,10 +478,10 @@ def handleC (o : Out) (blobh : String) (blob : Bytes) (n : Nat) (s0 : Bytes) (en
   else
     let ok := match env with
       | [] => true
-      | [(f1, t1)] => if base.isEmpty then f1 == DBSENDER && t1 == cfg.doublebounceto else f1.isEmpty && t1 == base
-      | [(f1, t1), (f2, t2)] => f1.isEmpty && t1 == base && f2 == DBSENDER && t2 == cfg.doublebounceto
+      | [(f1, t1)] => if base.isEmpty then f1 == DBSENDER && t1 == sdb else f1.isEmpty && t1 == base
+      | [(f1, t1), (f2, t2)] => f1.isEmpty && t1 == base && f2 == DBSENDER && t2 == sdb
       | _ => false
-    if !ok then o := o.ora s!"in={blobh} kind=C why=bounce-chain-envelopes chain={env.map (fun (a, b) => hex a ++ ">" ++ hex b)}"
+    if !ok then o := o.ora s!"in={blobh} kind=C why=bounce-chain-envelopes chain={env.map (fun (a, b) => hex a ++ ">" ++ hex b)} want-dbto={hex sdb}"
   return o
 
 def pairUp : List Bytes → List (Bytes × Bytes)
@@ -467,7 +534,9 @@ def handle (chain : IO.Ref Chain) (st : Stats) (line : String) : IO Stats := do
             | some log2, some szs => do
               let fs := splitNul blob
               let ch ← chain.get
-              let (o', ch') := daemonI o ch id blobh (getcontrols (controlsOf fs)) (fld fs 9) (pairsFrom (fs.drop 11))
+              let ctl := controlsOf fs
+              let (o', ch') := daemonI o ch id blobh (specLocals ctl.locals ctl.me) (specVdoms ctl.virtualdomains)
+                (specDoubleBounceTo ctl.doublebounceto ctl.doublebouncehost ctl.me) (fld fs 9) (pairsFrom (fs.drop 11))
                 bfile ret q f t body left log ret2 q2 f2 t2 (body2.getD body) left2 log2 szs
               chain.set ch'
               pure o'
